@@ -321,7 +321,11 @@ def generate(X):
              + ",\n  ".join("(" + X.lstr(c) + ", [" + ", ".join(X.lstr(o) for o in outs) + "], [" + ", ".join(X.lstr(d) for d in direct) + "])"
                             for c, outs, direct in eq_rows) + "]\n")
     L.append(f"/-- body of `Equivalence._get_out` -/\ndef getOutBody : String := {X.lstr(get_out)}\n")
+    reenters = "W:multiply(out=out)" in orders["arrayUfunc"]
+    L.append("/-- the `out=` post-multiplication of `__array_ufunc__` is `multiply(out, mul, out=out)` on the unyt array\n"
+             "    (a nested `__array_ufunc__` call) rather than on the raw buffer `out_func` -/\n"
+             f"def fixupReenters : Bool := {'true' if reenters else 'false'}\n")
     L.append("end Unyt.Generated.C18\n")
     X.write_if_changed(os.path.join(X.GEN, "C18Order.lean"), "\n".join(L))
     return {"orders": orders, "methodFacts": [[m, ws, cs] for m, ws, cs in facts],
-            "equivalenceOuts": [[c, outs, d] for c, outs, d in eq_rows], "getOutBody": get_out}
+            "equivalenceOuts": [[c, outs, d] for c, outs, d in eq_rows], "getOutBody": get_out, "fixupReenters": reenters}
